@@ -220,7 +220,9 @@ pub fn gen_case<A: Attr>(rng: &mut Rng, ext: f32) -> ([[f32; 3]; 3], [[f32; MAXC
     let persp = !rng.chance(1, 6);
     // depths from a millimetre to ten kilometres, attribute magnitudes over
     // fourteen decades (the oracle and its tolerances are scale-relative)
-    let wbase = rng.pick(&[0.1f32, 1.0, 1.0, 10.0, 1e-3, 1e2, 1e4]);
+    // (from w = 1e-6 to 1e10: reciprocal depths from 1e6 down to 1e-10 — a
+    // divisor "too small" for an absolute epsilon is an ordinary far depth)
+    let wbase = rng.pick(&[0.1f32, 1.0, 1.0, 10.0, 1e-3, 1e2, 1e4, 1e-6, 1e7, 1e9]);
     let amp = rng.pick(&[1.0f32, 1.0, 255.0, 0.01, 1e-6, 1e4, 1e8]);
     let off = if rng.chance(1, 3) { rng.f32_in(-3.0, 3.0) * amp } else { 0.0 };
     let mut p = [[0.0f32; 3]; 3];
@@ -260,6 +262,12 @@ fn one<A: Attr>(rng: &mut Rng, rep: &mut Report, idx: u64) {
     h.bytes(A::NAME.as_bytes());
     rep.case(h.get(), true);
     rep.count(if persp { "w.varying_up_to_10:1" } else { "w.all_one(affine)" });
+    if p.iter().any(|v| v[2] < 1e-6) {
+        rep.count("w.reciprocal_depth_below_1e-6");
+    }
+    if p.iter().any(|v| v[2] > 1e4) {
+        rep.count("w.reciprocal_depth_above_1e4");
+    }
     if (0..A::N).any(|c| a[0][c] * p[1][2] == a[1][c] * p[0][2] && a[0][c] * p[2][2] == a[2][c] * p[0][2]) {
         rep.count("attr.component_constant_over_the_triangle");
     }
@@ -450,4 +458,6 @@ pub fn run(cfg: &Cfg, rep: &mut Report) {
     rep.floor("shape.half_less_than_one_row_high", 5_000);
     rep.floor("shape.flat_top_or_bottom", 2_000);
     rep.floor("w.varying_up_to_10:1", 50_000);
+    rep.floor("w.reciprocal_depth_below_1e-6", 50_000);
+    rep.floor("w.reciprocal_depth_above_1e4", 20_000);
 }
